@@ -70,9 +70,31 @@
 (*             Fixed = TRUE: the repaired operator<< (init_if_needed,      *)
 (*             result_of, `if (pending()) charge`) = the steps of retfut.  *)
 (*                                                                         *)
+(* Rounds.  A resolved shared state may be re-armed (round k -> k+1, up to   *)
+(* MaxRounds) in the ways the code allows on an existing state:            *)
+(*   ReArmShl     `f << fn` through any handle, fn returning a pending     *)
+(*                future<T> (kind val/exc/drop/dtor) or a ready one        *)
+(*                ("ready"): result_of destroys the stored result and      *)
+(*                builds the new future in place, every copy shares the    *)
+(*                re-armed state, `if (pending()) charge` wires the tracer *)
+(*                AGAIN                               shared_future.h:197  *)
+(*   ReArmAssign  `f = shared_future(fn)` (the implicit assignment): a new *)
+(*                state is built (the resolver may race with its charge)   *)
+(*                and assigned; the old state loses its reference and,     *)
+(*                modelled for the sole holder of one handle, is freed     *)
+(*                with its value at the end of the call.                   *)
+(* get_promise() on a resolved state is NOT legal (future::get_promise     *)
+(* asserts the future is fresh, future.h:283-284, and would not destroy    *)
+(* the stored result) and is not modelled.  The result is a plain variable *)
+(* once ready (class comment): re-arming needs exclusive access, so it     *)
+(* happens only when the resolver is done and every thread is between two  *)
+(* calls.  Every round has its own resolver, each thread may make each     *)
+(* kind of call once per round, observations are per round.               *)
+(*                                                                         *)
 (* Variant = "code" is the implementation.  "notracer" (charge takes no    *)
-(* self reference) and "noreset" (the tracer never gives it back) are      *)
-(* deliberately broken variants used by the check to show that the         *)
+(* self reference), "noreset" (the tracer never gives it back) and         *)
+(* "chargeonce" (operator<< charges the tracer in the first round only)    *)
+(* are deliberately broken variants used by the check to show that the     *)
 (* invariants are not vacuous.                                             *)
 (***************************************************************************)
 EXTENDS Naturals, Sequences, FiniteSets, TLC
@@ -85,6 +107,8 @@ CONSTANTS H,           \* handle threads (strings)
           MaxCopies,   \* bound: number of handle copies made in a behaviour
           MaxHandles,  \* bound: handles held by one thread at a time
           Fixed,       \* TRUE: repaired shared_future::operator<< (see mode shl)
+          MaxRounds,   \* bound: rounds (1 = the state is armed once)
+          ReArmWays,   \* subset of {"shl", "shlready", "assign"}
           Variant
 
 ASSUME Fixed \in BOOLEAN /\ Ctor \in H /\ HCo \subseteq H /\ HBl \subseteq H /\ HCb \subseteq H /\ HPoll \subseteq H
@@ -124,10 +148,14 @@ VARIABLES
     did,       \* calls already made by the thread (each kind once)
     seen,      \* what every observer read
     resumes,   \* how many times every observer was released / read
-    uaf        \* ghost: some step touched the shared state while it was not alive
+    uaf,       \* ghost: some step touched the shared state while it was not alive
+    round,     \* current round (1..MaxRounds)
+    old,       \* per thread: reference it still holds on the PREVIOUS state while assigning a new one (0/1)
+    oldlive,   \* live stored value of that previous state (0/1)
+    vctor      \* constructions of stored values so far
 
 vars == <<mode, rkind, st, slot, nxt, tag, payload, nh, cref, tref, tmp, copies, vlive, vdtor,
-          rpc, cur, rest, sp, flag, pc, cop, did, seen, resumes, uaf>>
+          rpc, cur, rest, sp, flag, pc, cop, did, seen, resumes, uaf, round, old, oldlive, vctor>>
 
 NoRes == [tag |-> "unread", payload |-> "unread"]
 NotReady == [tag |-> "notready", payload |-> "notready"]
@@ -144,6 +172,7 @@ ReadyModes == {"fnsync", "setval", "setexc", "asyncsync"}
 ChargeModes == {"fn", "fnsync"}
 StartPc(k) == CASE k = "dtor" -> "pre_dload" [] k = "final" -> "pre_final" [] k = "none" -> "done" [] OTHER -> "pre_claim"
 TrefOn == IF Variant = "notracer" THEN 0 ELSE 1
+RPay == IF round = 1 THEN "r" ELSE "r" \o ToString(round)     \* who stores the result of the round
 
 (* Before Setup nothing exists; Setup(m, k) chooses the construction mode and the resolver kind and
    runs the constructing thread up to its first scheduling point (the state graph has one root, the
@@ -174,6 +203,10 @@ Init ==
     /\ seen = [o \in Obs |-> NoRes]
     /\ resumes = [o \in Obs |-> 0]
     /\ uaf = FALSE
+    /\ round = 1
+    /\ old = [h \in H |-> 0]
+    /\ oldlive = 0
+    /\ vctor = 0
 
 KindsOf(m) == IF m \in ReadyModes THEN {"none"} ELSE IF m = "async" THEN {"final"} ELSE RKinds
 
@@ -198,7 +231,8 @@ Setup(m, k) ==
     /\ cop' = [h \in H |-> IF h # Ctor THEN "none"
                            ELSE CASE m \in ChargeModes -> "charge" [] m \in {"late", "init"} -> "none"
                                   [] m = "shl" /\ ~Fixed -> "none" [] OTHER -> "ctor2"]
-    /\ UNCHANGED <<nxt, cref, copies, vdtor, cur, rest, sp, flag, did, seen, resumes, uaf>>
+    /\ vctor' = IF m \in {"fnsync", "setval", "asyncsync"} THEN 1 ELSE 0
+    /\ UNCHANGED <<nxt, cref, copies, vdtor, cur, rest, sp, flag, did, seen, resumes, uaf, round, old, oldlive>>
 
 -----------------------------------------------------------------------------
 (* helpers *)
@@ -241,7 +275,7 @@ Copy(h, g) ==
     /\ nh' = [nh EXCEPT ![g] = @ + 1]
     /\ copies' = copies + 1
     /\ Touch
-    /\ UNCHANGED <<mode, rkind, st, slot, nxt, tag, payload, cref, tref, tmp, vlive, vdtor, rpc, cur, rest, sp, flag, pc, cop, did, seen, resumes>>
+    /\ UNCHANGED <<round, old, oldlive, vctor, mode, rkind, st, slot, nxt, tag, payload, cref, tref, tmp, vlive, vdtor, rpc, cur, rest, sp, flag, pc, cop, did, seen, resumes>>
 
 (* ~shared_future of one handle *)
 Drop(h) ==
@@ -250,10 +284,18 @@ Drop(h) ==
     /\ nh' = [nh EXCEPT ![h] = @ - 1]
     /\ Touch
     /\ Unref
-    /\ UNCHANGED <<mode, rkind, slot, nxt, tag, payload, cref, tref, tmp, copies, rpc, cur, rest, sp, flag, pc, cop, did, seen, resumes>>
+    /\ UNCHANGED <<round, old, oldlive, vctor, mode, rkind, slot, nxt, tag, payload, cref, tref, tmp, copies, rpc, cur, rest, sp, flag, pc, cop, did, seen, resumes>>
+
+(* a thread is inside a constructor / get_promise() / operator<<: charge() in progress, or the pending() check
+   before it.  While the future of a shared state is being (re)built the caller has exclusive access to it
+   (result_of destroys and constructs it in place): the other holders start no call on it, and nobody
+   awaits before the tracer has been subscribed (the tracer must be the first node of the chain) *)
+Charging == \E g \in H : cop[g] = "charge"
+InCtor2 == \E g \in H : cop[g] = "ctor2"
 
 Begin(h, k, first) ==
     /\ pc[h] = "idle" /\ nh[h] >= 1 /\ k \notin did[h]
+    /\ ~InCtor2 /\ (k # "po" => ~Charging)
     /\ pc' = [pc EXCEPT ![h] = first]
     /\ cop' = [cop EXCEPT ![h] = k]
     /\ did' = [did EXCEPT ![h] = @ \cup {k}]
@@ -262,13 +304,13 @@ Begin(h, k, first) ==
 BeginPoll(h) ==
     /\ h \in HPoll
     /\ Begin(h, "po", "pre_check")
-    /\ UNCHANGED <<mode, rkind, st, slot, nxt, tag, payload, nh, cref, tref, tmp, copies, vlive, vdtor, rpc, cur, rest, sp, flag, seen, resumes, uaf>>
+    /\ UNCHANGED <<round, old, oldlive, vctor, mode, rkind, st, slot, nxt, tag, payload, nh, cref, tref, tmp, copies, vlive, vdtor, rpc, cur, rest, sp, flag, seen, resumes, uaf>>
 
 (* f.wait() *)
 BeginWait(h) ==
     /\ h \in HBl /\ rpc # "nopromise"
     /\ Begin(h, "bl", "pre_check")
-    /\ UNCHANGED <<mode, rkind, st, slot, nxt, tag, payload, nh, cref, tref, tmp, copies, vlive, vdtor, rpc, cur, rest, sp, flag, seen, resumes, uaf>>
+    /\ UNCHANGED <<round, old, oldlive, vctor, mode, rkind, st, slot, nxt, tag, payload, nh, cref, tref, tmp, copies, vlive, vdtor, rpc, cur, rest, sp, flag, seen, resumes, uaf>>
 
 (* a coroutine taking the shared_future by value is started: the frame holds its own handle;
    it runs up to the load of await_ready *)
@@ -277,21 +319,21 @@ BeginCo(h) ==
     /\ Begin(h, "co", "pre_check")
     /\ cref' = [cref EXCEPT ![h] = 1]
     /\ Touch
-    /\ UNCHANGED <<mode, rkind, st, slot, nxt, tag, payload, nh, tref, tmp, copies, vlive, vdtor, rpc, cur, rest, sp, flag, seen, resumes>>
+    /\ UNCHANGED <<round, old, oldlive, vctor, mode, rkind, st, slot, nxt, tag, payload, nh, tref, tmp, copies, vlive, vdtor, rpc, cur, rest, sp, flag, seen, resumes>>
 
 (* f.operator co_await().subscribe(&cb): no readiness check before the CAS.  The callback keeps no
    handle: it reads the result through the future reference it was given *)
 BeginCb(h) ==
     /\ h \in HCb /\ rpc # "nopromise"
     /\ Begin(h, "cb", "pre_cas")
-    /\ UNCHANGED <<mode, rkind, st, slot, nxt, tag, payload, nh, cref, tref, tmp, copies, vlive, vdtor, rpc, cur, rest, sp, flag, seen, resumes, uaf>>
+    /\ UNCHANGED <<round, old, oldlive, vctor, mode, rkind, st, slot, nxt, tag, payload, nh, cref, tref, tmp, copies, vlive, vdtor, rpc, cur, rest, sp, flag, seen, resumes, uaf>>
 
 (* default constructed object: ready() is false, value() throws value_not_ready_exception *)
 NullPoll(h) ==
     /\ pc[h] = "null_idle" /\ "np" \notin did[h]
     /\ did' = [did EXCEPT ![h] = @ \cup {"np"}]
     /\ seen' = [seen EXCEPT ![N(h, "po")] = NotReady]
-    /\ UNCHANGED <<mode, rkind, st, slot, nxt, tag, payload, nh, cref, tref, tmp, copies, vlive, vdtor, rpc, cur, rest, sp, flag, pc, cop, resumes, uaf>>
+    /\ UNCHANGED <<round, old, oldlive, vctor, mode, rkind, st, slot, nxt, tag, payload, nh, cref, tref, tmp, copies, vlive, vdtor, rpc, cur, rest, sp, flag, pc, cop, resumes, uaf>>
 
 (* get_promise() on the default constructed object: init_if_needed allocates the state,
    future::get_promise makes it pending, charge() runs up to its CAS *)
@@ -303,7 +345,7 @@ LateInit(h) ==
     /\ tmp' = 1
     /\ pc' = [pc EXCEPT ![h] = "pre_cas"]
     /\ cop' = [cop EXCEPT ![h] = "charge"]
-    /\ UNCHANGED <<mode, rkind, slot, nxt, tag, payload, cref, copies, vlive, vdtor, rpc, cur, rest, sp, flag, did, seen, resumes, uaf>>
+    /\ UNCHANGED <<round, old, oldlive, vctor, mode, rkind, slot, nxt, tag, payload, cref, copies, vlive, vdtor, rpc, cur, rest, sp, flag, did, seen, resumes, uaf>>
 
 (* mode init: get_promise() through a handle of the already existing fresh state: init_if_needed does
    nothing (the state and with it every other copy is kept), future::get_promise makes the state
@@ -317,7 +359,70 @@ GetPromise(h) ==
     /\ pc' = [pc EXCEPT ![h] = "pre_cas"]
     /\ cop' = [cop EXCEPT ![h] = "charge"]
     /\ Touch
-    /\ UNCHANGED <<mode, rkind, st, nxt, tag, payload, nh, cref, copies, vlive, vdtor, rpc, cur, rest, sp, flag, did, seen, resumes>>
+    /\ UNCHANGED <<round, old, oldlive, vctor, mode, rkind, st, nxt, tag, payload, nh, cref, copies, vlive, vdtor, rpc, cur, rest, sp, flag, did, seen, resumes>>
+
+(* ---- rounds: re-arming a resolved state ---- *)
+Quiescent == /\ rpc = "done" /\ slot = "ready" /\ st = "alive" /\ tref = 0 /\ tmp = 0
+             /\ \A g \in H : pc[g] = "idle" /\ cref[g] = 0
+
+NewRound ==
+    /\ round' = round + 1
+    /\ did' = [g \in H |-> {}]
+    /\ seen' = [o \in Obs |-> NoRes]
+    /\ resumes' = [o \in Obs |-> 0]
+    /\ flag' = [g \in H |-> FALSE]
+
+(* `f << fn` through a handle of the resolved state (shared_future.h:197-205): init_if_needed does nothing,
+   future::result_of destroys the stored result and constructs fn's future in place (fn hands the promise to
+   the resolver of the new round, or returns an already resolved future); the thread runs up to the pending()
+   load, after which the tracer is charged again exactly as in the ReturnsFuture constructor *)
+ReArmShl(h, k) ==
+    /\ round < MaxRounds /\ Quiescent /\ nh[h] >= 1
+    /\ \/ k \in RKinds /\ "shl" \in ReArmWays
+       \/ k = "ready" /\ "shlready" \in ReArmWays
+    /\ NewRound
+    /\ vdtor' = vdtor + vlive
+    /\ IF k = "ready"
+         THEN /\ tag' = "val"
+              /\ payload' = "sv" \o ToString(round + 1)
+              /\ vlive' = 1
+              /\ vctor' = vctor + 1
+              /\ rpc' = "done"
+              /\ rkind' = "none"
+              /\ UNCHANGED slot
+         ELSE /\ tag' = "none"
+              /\ payload' = "none"
+              /\ vlive' = 0
+              /\ slot' = "null"
+              /\ rpc' = StartPc(k)
+              /\ rkind' = k
+              /\ UNCHANGED vctor
+    /\ pc' = [pc EXCEPT ![h] = "pre_pload"]
+    /\ cop' = [cop EXCEPT ![h] = "ctor2"]
+    /\ Touch
+    /\ UNCHANGED <<mode, st, nxt, nh, cref, tref, tmp, copies, cur, rest, sp, old, oldlive>>
+
+(* `f = shared_future(fn)` by the sole holder of one handle: the promise constructor builds a NEW state (its
+   promise goes to the resolver of the new round, which may run concurrently with charge()); the thread runs
+   up to the CAS of charge().  From here on the model's state variables describe the new state; the previous
+   one is kept alive by `old` until the assignment itself executes (PostCAS / PostFence) *)
+ReArmAssign(h, k) ==
+    /\ round < MaxRounds /\ Quiescent /\ "assign" \in ReArmWays /\ k \in RKinds
+    /\ nh[h] = 1 /\ Use = 1
+    /\ NewRound
+    /\ old' = [old EXCEPT ![h] = 1]
+    /\ oldlive' = vlive
+    /\ vlive' = 0
+    /\ slot' = "null"
+    /\ tag' = "none"
+    /\ payload' = "none"
+    /\ tref' = TrefOn
+    /\ tmp' = 1
+    /\ rpc' = StartPc(k)
+    /\ rkind' = k
+    /\ pc' = [pc EXCEPT ![h] = "pre_cas"]
+    /\ cop' = [cop EXCEPT ![h] = "charge"]
+    /\ UNCHANGED <<mode, st, nxt, nh, cref, copies, vdtor, vctor, cur, rest, sp, uaf>>
 
 -----------------------------------------------------------------------------
 (* handle threads: atomic operations and the local code after them *)
@@ -327,12 +432,12 @@ PrePload(h) ==
     /\ pc[h] = "pre_pload"
     /\ pc' = [pc EXCEPT ![h] = IF slot = "ready" THEN "post_pload_n" ELSE "post_pload_p"]
     /\ Touch
-    /\ UNCHANGED <<mode, rkind, st, slot, nxt, tag, payload, nh, cref, tref, tmp, copies, vlive, vdtor, rpc, cur, rest, sp, flag, cop, did, seen, resumes>>
+    /\ UNCHANGED <<round, old, oldlive, vctor, mode, rkind, st, slot, nxt, tag, payload, nh, cref, tref, tmp, copies, vlive, vdtor, rpc, cur, rest, sp, flag, cop, did, seen, resumes>>
 
 (* pending: charge(_ptr) up to its CAS (`_ptr = ptr` executed, parameter alive); else the constructor returns *)
 PostPload(h) ==
     /\ pc[h] \in {"post_pload_p", "post_pload_n"}
-    /\ IF pc[h] = "post_pload_p"
+    /\ IF pc[h] = "post_pload_p" /\ ~(Variant = "chargeonce" /\ round > 1)
          THEN /\ tref' = TrefOn
               /\ tmp' = 1
               /\ pc' = [pc EXCEPT ![h] = "pre_cas"]
@@ -340,14 +445,14 @@ PostPload(h) ==
               /\ Touch
          ELSE /\ Idle(h)
               /\ UNCHANGED <<tref, tmp, uaf>>
-    /\ UNCHANGED <<mode, rkind, st, slot, nxt, tag, payload, nh, cref, copies, vlive, vdtor, rpc, cur, rest, sp, flag, did, seen, resumes>>
+    /\ UNCHANGED <<round, old, oldlive, vctor, mode, rkind, st, slot, nxt, tag, payload, nh, cref, copies, vlive, vdtor, rpc, cur, rest, sp, flag, did, seen, resumes>>
 
 (* future_common::ready(): load(acquire) == &disabled *)
 PreCheck(h) ==
     /\ pc[h] = "pre_check"
     /\ pc' = [pc EXCEPT ![h] = IF slot = "ready" THEN "post_check_r" ELSE "post_check_n"]
     /\ Touch
-    /\ UNCHANGED <<mode, rkind, st, slot, nxt, tag, payload, nh, cref, tref, tmp, copies, vlive, vdtor, rpc, cur, rest, sp, flag, cop, did, seen, resumes>>
+    /\ UNCHANGED <<round, old, oldlive, vctor, mode, rkind, st, slot, nxt, tag, payload, nh, cref, tref, tmp, copies, vlive, vdtor, rpc, cur, rest, sp, flag, cop, did, seen, resumes>>
 
 PostCheck(h) ==
     /\ pc[h] \in {"post_check_r", "post_check_n"}
@@ -366,7 +471,7 @@ PostCheck(h) ==
                 ELSE (* sync(): the sync_awaiter is built, subscribe; coroutine: await_suspend *)
                      /\ pc' = [pc EXCEPT ![h] = "pre_cas"]
                      /\ UNCHANGED <<cop, seen, resumes, cref, st, vdtor, vlive, uaf>>
-    /\ UNCHANGED <<mode, rkind, slot, nxt, tag, payload, nh, tref, tmp, copies, rpc, cur, rest, sp, flag, did>>
+    /\ UNCHANGED <<round, old, oldlive, vctor, mode, rkind, slot, nxt, tag, payload, nh, tref, tmp, copies, rpc, cur, rest, sp, flag, did>>
 
 (* one iteration of compare_exchange(_next, this) *)
 PreCAS(h) ==
@@ -380,7 +485,7 @@ PreCAS(h) ==
               /\ pc' = [pc EXCEPT ![h] = "post_cas_fail"]
               /\ UNCHANGED slot
     /\ Touch
-    /\ UNCHANGED <<mode, rkind, st, tag, payload, nh, cref, tref, tmp, copies, vlive, vdtor, rpc, cur, rest, sp, flag, cop, did, seen, resumes>>
+    /\ UNCHANGED <<round, old, oldlive, vctor, mode, rkind, st, tag, payload, nh, cref, tref, tmp, copies, vlive, vdtor, rpc, cur, rest, sp, flag, cop, did, seen, resumes>>
 
 PostCAS(h) ==
     /\ pc[h] \in {"post_cas_ok", "post_cas_fail"}
@@ -406,12 +511,19 @@ PostCAS(h) ==
          [] pc[h] = "post_cas_fail" /\ nxt[n] # "ready" ->
                 /\ pc' = [pc EXCEPT ![h] = "pre_cas"]
                 /\ UNCHANGED <<tmp, rpc, cop, nxt>>
-    /\ UNCHANGED <<mode, rkind, st, slot, tag, payload, nh, cref, tref, copies, vlive, vdtor, cur, rest, sp, flag, did, seen, resumes, uaf>>
+    (* `f = shared_future(fn)`: the constructor returned, the assignment drops the reference to the previous
+       state (held by this thread only): it is destroyed with its value and freed *)
+    /\ IF pc[h] = "post_cas_ok" /\ cop[h] = "charge" /\ old[h] = 1
+         THEN /\ old' = [old EXCEPT ![h] = 0]
+              /\ oldlive' = 0
+              /\ vdtor' = vdtor + oldlive
+         ELSE UNCHANGED <<old, oldlive, vdtor>>
+    /\ UNCHANGED <<round, vctor, mode, rkind, st, slot, tag, payload, nh, cref, tref, copies, vlive, cur, rest, sp, flag, did, seen, resumes, uaf>>
 
 PreFence(h) ==
     /\ pc[h] = "pre_fence"
     /\ pc' = [pc EXCEPT ![h] = "post_fence"]
-    /\ UNCHANGED <<mode, rkind, st, slot, nxt, tag, payload, nh, cref, tref, tmp, copies, vlive, vdtor, rpc, cur, rest, sp, flag, cop, did, seen, resumes, uaf>>
+    /\ UNCHANGED <<round, old, oldlive, vctor, mode, rkind, st, slot, nxt, tag, payload, nh, cref, tref, tmp, copies, vlive, vdtor, rpc, cur, rest, sp, flag, cop, did, seen, resumes, uaf>>
 
 (* subscription refused: the caller proceeds as if ready *)
 PostFence(h) ==
@@ -422,30 +534,34 @@ PostFence(h) ==
               /\ tmp' = 0
               /\ Idle(h)
               /\ Touch
-              /\ UNCHANGED <<seen, resumes, cref, st, vdtor, vlive>>
+              (* an assignment in progress completes here as well (see PostCAS) *)
+              /\ old' = [old EXCEPT ![h] = 0]
+              /\ oldlive' = IF old[h] = 1 THEN 0 ELSE oldlive
+              /\ vdtor' = vdtor + (IF old[h] = 1 THEN oldlive ELSE 0)
+              /\ UNCHANGED <<seen, resumes, cref, st, vlive>>
          ELSE IF cop[h] = "co"
                 THEN /\ CoFinish(h)
                      /\ Touch
-                     /\ UNCHANGED <<tref, tmp>>
+                     /\ UNCHANGED <<tref, tmp, old, oldlive>>
                 ELSE /\ ReadBy(N(h, cop[h]))
                      /\ Idle(h)
                      /\ Touch
-                     /\ UNCHANGED <<tref, tmp, cref, st, vdtor, vlive>>
-    /\ UNCHANGED <<mode, rkind, slot, nxt, tag, payload, nh, copies, rpc, cur, rest, sp, flag, did>>
+                     /\ UNCHANGED <<tref, tmp, cref, st, vdtor, vlive, old, oldlive>>
+    /\ UNCHANGED <<round, vctor, mode, rkind, slot, nxt, tag, payload, nh, copies, rpc, cur, rest, sp, flag, did>>
 
 (* flag.wait(false) returns once the flag is set *)
 PreWait(h) ==
     /\ pc[h] = "pre_wait"
     /\ flag[h]
     /\ pc' = [pc EXCEPT ![h] = "post_wait"]
-    /\ UNCHANGED <<mode, rkind, st, slot, nxt, tag, payload, nh, cref, tref, tmp, copies, vlive, vdtor, rpc, cur, rest, sp, flag, cop, did, seen, resumes, uaf>>
+    /\ UNCHANGED <<round, old, oldlive, vctor, mode, rkind, st, slot, nxt, tag, payload, nh, cref, tref, tmp, copies, vlive, vdtor, rpc, cur, rest, sp, flag, cop, did, seen, resumes, uaf>>
 
 PostWait(h) ==
     /\ pc[h] = "post_wait"
     /\ ReadBy(N(h, "bl"))
     /\ Idle(h)
     /\ Touch
-    /\ UNCHANGED <<mode, rkind, st, slot, nxt, tag, payload, nh, cref, tref, tmp, copies, vlive, vdtor, rpc, cur, rest, sp, flag, did>>
+    /\ UNCHANGED <<round, old, oldlive, vctor, mode, rkind, st, slot, nxt, tag, payload, nh, cref, tref, tmp, copies, vlive, vdtor, rpc, cur, rest, sp, flag, did>>
 
 -----------------------------------------------------------------------------
 (* resolver: resume_chain_lk (awaiter.h:103-112) over the detached chain.  Coroutine nodes are
@@ -505,30 +621,31 @@ WalkFrom(n) ==
 PreClaim(r) ==
     /\ rpc = "pre_claim"
     /\ rpc' = "post_claim"
-    /\ UNCHANGED <<mode, rkind, st, slot, nxt, tag, payload, nh, cref, tref, tmp, copies, vlive, vdtor, cur, rest, sp, flag, pc, cop, did, seen, resumes, uaf>>
+    /\ UNCHANGED <<round, old, oldlive, vctor, mode, rkind, st, slot, nxt, tag, payload, nh, cref, tref, tmp, copies, vlive, vdtor, cur, rest, sp, flag, pc, cop, did, seen, resumes, uaf>>
 
 (* future::set: the value is constructed in place / the exception pointer stored (plain stores into the state) *)
 PostClaim(r) ==
     /\ rpc = "post_claim"
     /\ rpc' = "pre_swap"
     /\ IF rkind = "drop"
-         THEN UNCHANGED <<tag, payload, vlive, uaf>>
+         THEN UNCHANGED <<tag, payload, vlive, vctor, uaf>>
          ELSE /\ tag' = rkind
-              /\ payload' = r
+              /\ payload' = RPay
               /\ vlive' = IF rkind = "val" THEN 1 ELSE 0
+              /\ vctor' = vctor + (IF rkind = "val" THEN 1 ELSE 0)
               /\ Touch
-    /\ UNCHANGED <<mode, rkind, st, slot, nxt, nh, cref, tref, tmp, copies, vdtor, cur, rest, sp, flag, pc, cop, did, seen, resumes>>
+    /\ UNCHANGED <<round, old, oldlive, mode, rkind, st, slot, nxt, nh, cref, tref, tmp, copies, vdtor, cur, rest, sp, flag, pc, cop, did, seen, resumes>>
 
 (* promise::~promise: load of the owner pointer, then resolve() *)
 PreDload(r) ==
     /\ rpc = "pre_dload"
     /\ rpc' = "post_dload"
-    /\ UNCHANGED <<mode, rkind, st, slot, nxt, tag, payload, nh, cref, tref, tmp, copies, vlive, vdtor, cur, rest, sp, flag, pc, cop, did, seen, resumes, uaf>>
+    /\ UNCHANGED <<round, old, oldlive, vctor, mode, rkind, st, slot, nxt, tag, payload, nh, cref, tref, tmp, copies, vlive, vdtor, cur, rest, sp, flag, pc, cop, did, seen, resumes, uaf>>
 
 PostDload(r) ==
     /\ rpc = "post_dload"
     /\ rpc' = "pre_swap"
-    /\ UNCHANGED <<mode, rkind, st, slot, nxt, tag, payload, nh, cref, tref, tmp, copies, vlive, vdtor, cur, rest, sp, flag, pc, cop, did, seen, resumes, uaf>>
+    /\ UNCHANGED <<round, old, oldlive, vctor, mode, rkind, st, slot, nxt, tag, payload, nh, cref, tref, tmp, copies, vlive, vdtor, cur, rest, sp, flag, pc, cop, did, seen, resumes, uaf>>
 
 (* the suspended async coroutine is resumed: co_return stores the value (async_promise::resolve),
    final_suspend calls future::resolve *)
@@ -538,8 +655,9 @@ PreFinal(r) ==
     /\ tag' = "val"
     /\ payload' = r
     /\ vlive' = 1
+    /\ vctor' = vctor + 1
     /\ Touch
-    /\ UNCHANGED <<mode, rkind, st, slot, nxt, nh, cref, tref, tmp, copies, vdtor, cur, rest, sp, flag, pc, cop, did, seen, resumes>>
+    /\ UNCHANGED <<round, old, oldlive, mode, rkind, st, slot, nxt, nh, cref, tref, tmp, copies, vdtor, cur, rest, sp, flag, pc, cop, did, seen, resumes>>
 
 (* resume_chain_set_ready: exchange(&disabled); the old top of the chain is the walker's local *)
 PreSwap(r) ==
@@ -548,33 +666,33 @@ PreSwap(r) ==
     /\ rest' = slot
     /\ rpc' = "post_swap"
     /\ Touch
-    /\ UNCHANGED <<mode, rkind, st, nxt, tag, payload, nh, cref, tref, tmp, copies, vlive, vdtor, cur, sp, flag, pc, cop, did, seen, resumes>>
+    /\ UNCHANGED <<round, old, oldlive, vctor, mode, rkind, st, nxt, tag, payload, nh, cref, tref, tmp, copies, vlive, vdtor, cur, sp, flag, pc, cop, did, seen, resumes>>
 
 PostSwap(r) ==
     /\ rpc = "post_swap"
     /\ WalkFrom(rest)
-    /\ UNCHANGED <<mode, rkind, slot, tag, payload, nh, tmp, copies, flag, pc, cop, did>>
+    /\ UNCHANGED <<round, old, oldlive, vctor, mode, rkind, slot, tag, payload, nh, tmp, copies, flag, pc, cop, did>>
 
 PreFstore(r) ==
     /\ rpc = "pre_fstore"
     /\ flag' = [flag EXCEPT ![OwnerOf(cur)] = TRUE]
     /\ rpc' = "post_fstore"
-    /\ UNCHANGED <<mode, rkind, st, slot, nxt, tag, payload, nh, cref, tref, tmp, copies, vlive, vdtor, cur, rest, sp, pc, cop, did, seen, resumes, uaf>>
+    /\ UNCHANGED <<round, old, oldlive, vctor, mode, rkind, st, slot, nxt, tag, payload, nh, cref, tref, tmp, copies, vlive, vdtor, cur, rest, sp, pc, cop, did, seen, resumes, uaf>>
 
 PostFstore(r) ==
     /\ rpc = "post_fstore"
     /\ rpc' = "pre_notify"
-    /\ UNCHANGED <<mode, rkind, st, slot, nxt, tag, payload, nh, cref, tref, tmp, copies, vlive, vdtor, cur, rest, sp, flag, pc, cop, did, seen, resumes, uaf>>
+    /\ UNCHANGED <<round, old, oldlive, vctor, mode, rkind, st, slot, nxt, tag, payload, nh, cref, tref, tmp, copies, vlive, vdtor, cur, rest, sp, flag, pc, cop, did, seen, resumes, uaf>>
 
 PreNotify(r) ==
     /\ rpc = "pre_notify"
     /\ rpc' = "post_notify"
-    /\ UNCHANGED <<mode, rkind, st, slot, nxt, tag, payload, nh, cref, tref, tmp, copies, vlive, vdtor, cur, rest, sp, flag, pc, cop, did, seen, resumes, uaf>>
+    /\ UNCHANGED <<round, old, oldlive, vctor, mode, rkind, st, slot, nxt, tag, payload, nh, cref, tref, tmp, copies, vlive, vdtor, cur, rest, sp, flag, pc, cop, did, seen, resumes, uaf>>
 
 PostNotify(r) ==
     /\ rpc = "post_notify"
     /\ WalkFrom(rest)
-    /\ UNCHANGED <<mode, rkind, slot, tag, payload, nh, tmp, copies, flag, pc, cop, did>>
+    /\ UNCHANGED <<round, old, oldlive, vctor, mode, rkind, slot, tag, payload, nh, tmp, copies, flag, pc, cop, did>>
 
 -----------------------------------------------------------------------------
 ResolverStep(r) == \/ PreClaim(r) \/ PostClaim(r) \/ PreDload(r) \/ PostDload(r) \/ PreFinal(r)
@@ -584,6 +702,7 @@ HandleStep(h) == \/ Drop(h) \/ BeginPoll(h) \/ BeginWait(h) \/ BeginCo(h) \/ Beg
                  \/ PrePload(h) \/ PostPload(h) \/ PreCheck(h) \/ PostCheck(h) \/ PreCAS(h) \/ PostCAS(h)
                  \/ PreFence(h) \/ PostFence(h) \/ PreWait(h) \/ PostWait(h)
                  \/ \E g \in H : Copy(h, g)
+                 \/ \E k \in RKinds \cup {"ready"} : ReArmShl(h, k) \/ ReArmAssign(h, k)
 
 Next == \/ \E m \in Modes : \E k \in KindsOf(m) : Setup(m, k)
         \/ \E r \in {R} : PreClaim(r) \/ PostClaim(r) \/ PreDload(r) \/ PostDload(r) \/ PreFinal(r)
@@ -592,6 +711,7 @@ Next == \/ \E m \in Modes : \E k \in KindsOf(m) : Setup(m, k)
                         \/ PrePload(h) \/ PostPload(h) \/ PreCheck(h) \/ PostCheck(h) \/ PreCAS(h) \/ PostCAS(h)
                         \/ PreFence(h) \/ PostFence(h) \/ PreWait(h) \/ PostWait(h)
         \/ \E h \in H : \E g \in H : Copy(h, g)
+        \/ \E h \in H : \E k \in RKinds \cup {"ready"} : ReArmShl(h, k) \/ ReArmAssign(h, k)
 
 Fair == /\ WF_vars(\E m \in Modes : \E k \in KindsOf(m) : Setup(m, k))
         /\ WF_vars(ResolverStep(R))
@@ -615,7 +735,8 @@ TypeOK ==
     /\ tref \in {0, 1} /\ tmp \in {0, 1}
     /\ \A h \in H : pc[h] \in HPcs /\ nh[h] \in 0..MaxHandles /\ cref[h] \in {0, 1}
     /\ rpc \in RPcs
-    /\ vlive \in {0, 1}
+    /\ vlive \in {0, 1} /\ oldlive \in {0, 1} /\ round \in 1..MaxRounds
+    /\ \A h \in H : old[h] \in {0, 1}
 
 Terminal == /\ mode # "unset"
             /\ rpc = "done"
@@ -629,14 +750,13 @@ AliveWhilePending == (st # "none" /\ slot \notin {"ready", "inst"}) => (st = "al
 
 (* the tracer holds its self reference exactly while the future is pending: from charge() on,
    until the chain walk reaches it -- which is after the resolving exchange *)
-Charging == \E h \in H : cop[h] = "charge"
 TracerWhilePending ==
-    /\ (st = "alive" /\ slot \notin {"ready", "inst"} /\ cop[Ctor] # "ctor2") => tref = 1
+    /\ (st = "alive" /\ slot \notin {"ready", "inst"} /\ ~InCtor2) => tref = 1
     /\ (rpc = "done" /\ ~Charging) => tref = 0
     /\ slot = "inst" => tref = 0
 
 (* construction from an already resolved future never wires the tracer *)
-NotWiredWhenReady == mode \in {"setval", "setexc", "asyncsync"} => (tref = 0 /\ tmp = 0 /\ nxt[TR] = "null" /\ slot = "ready")
+NotWiredWhenReady == (round = 1 /\ mode \in {"setval", "setexc", "asyncsync"}) => (tref = 0 /\ tmp = 0 /\ nxt[TR] = "null" /\ slot = "ready")
 
 (* the tracer was subscribed first, therefore it is the last node of the chain *)
 RECURSIVE ChainFrom(_, _)
@@ -650,10 +770,11 @@ TracerLast ==
 
 (* the stored value lives exactly as long as the state; it is destroyed at most once *)
 FreedOnce ==
-    /\ vdtor <= 1
+    /\ vdtor + vlive + oldlive = vctor          \* every stored value is alive or was destroyed exactly once
     /\ (tag = "val") => (vlive = 1 <=> st = "alive")
-    /\ (tag # "val") => (vlive = 0 /\ vdtor = 0)
-    /\ (st = "freed") => (vdtor = IF tag = "val" THEN 1 ELSE 0)
+    /\ (tag # "val") => vlive = 0
+    /\ (st = "freed") => (vlive = 0 /\ vdtor = vctor)
+    /\ (oldlive = 1) => \E h \in H : old[h] = 1
 FreedForGood == [][(st = "freed" => st' = "freed") /\ vdtor' >= vdtor]_vars
 
 (* every step that touches the state finds it alive; a thread inside a public call holds a handle *)
@@ -664,7 +785,7 @@ NoUseAfterFree ==
 
 (* one result for everybody *)
 SameResultForAll == \A o \in Obs : resumes[o] > 0 => seen[o] = Result
-ResultStable == [][slot = "ready" => UNCHANGED <<tag, payload, slot>>]_vars
+ResultStable == [][(slot = "ready" /\ round' = round) => UNCHANGED <<tag, payload, slot>>]_vars
 NoEarlyWake == \A o \in Obs : resumes[o] > 0 => slot = "ready"
 ExactlyOnce == \A o \in Obs : resumes[o] <= 1
 
@@ -672,7 +793,8 @@ ExactlyOnce == \A o \in Obs : resumes[o] <= 1
    in mode "late" the end is reachable only through get_promise() on the default constructed object *)
 AtEnd ==
     Terminal =>
-        /\ st = "freed" /\ Use = 0 /\ vlive = 0
+        /\ st = "freed" /\ Use = 0 /\ vlive = 0 /\ vdtor = vctor
+        /\ \A h \in H : old[h] = 0
         /\ slot = "ready"
         /\ \A h \in H : \A k \in {"co", "bl", "cb"} : k \in did[h] => resumes[N(h, k)] = 1
         /\ \A h \in H : "po" \in did[h] => (resumes[N(h, "po")] = 1 \/ seen[N(h, "po")] = NotReady)
@@ -689,6 +811,13 @@ LateInitKeepsState ==
         /\ st # "none"
         /\ (slot = "inst") => (st = "alive" /\ rpc = "nopromise" /\ ~Charging)
         /\ (rpc = "nopromise" /\ slot # "inst") => (Charging /\ st = "alive" /\ tref = 1)
+
+(* a round is complete when the resolver is done and every thread is between two calls: every awaiter of
+   the round has been released exactly once (with the round's result: SameResultForAll) -- this is the
+   situation in which the state may be re-armed and the per-round observations are reset *)
+RoundComplete ==
+    (rpc = "done" /\ mode # "unset" /\ \A g \in H : pc[g] = "idle") =>
+        \A h \in H : \A k \in {"co", "bl", "cb"} : k \in did[h] => resumes[N(h, k)] = 1
 
 NoStuckState == (~ ENABLED Next) => Terminal
 NoHang == <>[]Terminal
